@@ -18,10 +18,10 @@ def P(i, kind, q="", ins=(), outs=(), phase="conc"):
 
 
 def scn(name, procs, secrets=("s1",), lq=(("lq1", "UNPAID", "none", ""),), mq=(), used=(), pend=(), signed=(), mutex=True,
-        crash=False, ln="truth", releasecheck=True, pollguard=True, pollnotfound=False, expect="hold"):
+        crash=False, faults=False, ln="truth", releasecheck=True, pollguard=True, pollnotfound=False, expect="hold"):
     return {"name": name, "secrets": list(secrets), "used": list(used), "pend": [{"s": s, "q": q} for s, q in pend],
             "signed": list(signed), "lq": [{"q": q, "st": st, "pay": pay, "internal": i} for q, st, pay, i in lq],
-            "mq": [{"q": q, "st": st, "settled": se} for q, st, se in mq], "mutex": mutex, "crash": crash, "ln": ln,
+            "mq": [{"q": q, "st": st, "settled": se} for q, st, se in mq], "mutex": mutex, "crash": crash, "faults": faults, "ln": ln,
             "releasecheck": releasecheck, "pollguard": pollguard, "pollnotfound": pollnotfound, "procs": procs, "expect": expect}
 
 
@@ -122,6 +122,7 @@ INVARIANT Inv_NoDoubleUse
 INVARIANT Inv_IssueOnce
 INVARIANT Inv_Quiet
 INVARIANT Inv_CrashReport
+INVARIANT Inv_FaultReport
 """
 
 
@@ -152,6 +153,8 @@ def run_design(sd, s):
     viol = re.search(r"Invariant (\w+) is violated", out)
     windows = sorted(set(re.findall(r'<<"WINDOW", "(.*?)", "(.*?)">>', out)))
     r["crash_windows"] = [{"at": json.loads(a.replace('\\"', '"')), "damage": json.loads(b.replace('\\"', '"'))} for a, b in windows]
+    fw = sorted(set(re.findall(r'<<"FAULTWINDOW", "(.*?)", "(.*?)">>', out)))
+    r["fault_windows"] = [{"at": json.loads(a.replace('\\"', '"')), "damage": json.loads(b.replace('\\"', '"'))} for a, b in fw]
     if viol:
         r["violated"] = viol.group(1)
         r["schedule"] = counterexample(out)
@@ -389,10 +392,29 @@ def crash_windows(sd, code_keys):
     good; the crash enumeration on the real mint (code_keys: finding keys `victim|crash-before:<call>#n|...`) names its own.
     Both sets are compared per kind of request, by the call the process died in front of."""
     t0 = time.time()
-    with ThreadPoolExecutor(max_workers=5) as pool:
-        res = list(pool.map(lambda s: run_design(sd, s), crash_scenarios()))
+    cs = crash_scenarios()
+    fs = [dict(s, crash=False, faults=True, name=s["name"].replace("crash/", "fault/")) for s in cs]
+    with ThreadPoolExecutor(max_workers=6) as pool:
+        allres = list(pool.map(lambda s: run_design(sd, s), cs + fs))
+    res, fres = allres[:len(cs)], allres[len(cs):]
     out = {}
     agree = True
+    for r in fres:
+        if "violated" in r:
+            raise Infra("MintSteps %s violates %s (fault windows are reported, not failed on): %s" % (r["scenario"], r["violated"], r["schedule"]))
+        grp = GROUPS[r["scenario"].replace("fault/", "crash/")]
+        model = {}
+        for w in r["fault_windows"]:
+            model.setdefault(PC_CALL.get(w["at"][1], w["at"][1]), set()).update(w["damage"])
+        code = {}
+        for k in code_keys:
+            v, how, why = k.split("|", 2)
+            if v in grp and how.startswith("error-before:"):
+                code.setdefault(how[len("error-before:"):].split("#")[0], set()).add(why)
+        same = set(model) == set(code) or not grp
+        agree = agree and same
+        out[r["scenario"]] = {"model": {c: sorted(d) for c, d in sorted(model.items())}, "real_mint": {c: sorted(d) for c, d in sorted(code.items())},
+                              "agree": same, "states": r["distinct"]}
     for r in res:
         if "violated" in r:
             raise Infra("MintSteps %s violates %s (crash windows are reported, not failed on): %s" % (r["scenario"], r["violated"], r["schedule"]))
@@ -405,12 +427,12 @@ def crash_windows(sd, code_keys):
             v, how, why = k.split("|", 2)
             if v in GROUPS[r["scenario"]] and how.startswith("crash-before:"):
                 code.setdefault(how[len("crash-before:"):].split("#")[0], set()).add(why)
-        same = set(model) == set(code)
+        same = set(model) == set(code) or not GROUPS[r["scenario"]]
         agree = agree and same
         out[r["scenario"]] = {"model": {c: sorted(d) for c, d in sorted(model.items())}, "real_mint": {c: sorted(d) for c, d in sorted(code.items())},
                               "agree": same, "states": r["distinct"]}
-    return {"per_request_kind": out, "agree": agree, "states_generated": sum(r["generated"] for r in res),
-            "distinct_states": sum(r["distinct"] for r in res), "wall_s": round(time.time() - t0, 1),
+    return {"per_request_kind": out, "agree": agree, "states_generated": sum(r["generated"] for r in allres),
+            "distinct_states": sum(r["distinct"] for r in allres), "wall_s": round(time.time() - t0, 1),
             "note": "agreement binds the model's crash semantics to the code's; a difference is model drift or a changed window - the "
                     "verdict on every window comes from the execution on the real mint"}
 
@@ -427,3 +449,45 @@ def dry_conformance(sd, scns, dry_runs):
         es.append({"name": s["name"], "prefix": s["prefix"], "conc": [s["victim"]]})
         index.append({"tr": n, "scenario": s["name"], "schedule": ["p1:start:" + s["victim"]["op"]] + ["p1:" + c for c in calls[0]]})
     return conformance(sd, es, {"index": index}, {})
+
+
+# ---- keyset lifecycle at call level ----
+
+ROTATE_CALLS = ["db:GetSeed", "db:UpdateKeysetActive", "db:SaveKeyset"]    # RotateKeyset in KeysetSteps.tla: r1, r2, r3
+
+
+def keyset_model(sd, max_rot=None):
+    """KeysetSteps.tla: RotateKeyset + LoadMint recovery with crashes between any two storage calls and one failing call, exhaustive.
+    The recovery of the code ("latest") must satisfy every invariant; "oldest" (a seeded change) and "none" (the code before 6a5ae38)
+    must be rejected."""
+    max_rot = max_rot or (3 if tier() == "quick" else 5)
+    out = {}
+    for variant in ("latest", "oldest", "none"):
+        d = _sd(sd, "ks_" + variant)
+        with open(os.path.join(d, "KeysetRun.cfg"), "w") as f:
+            f.write("SPECIFICATION Spec\nCHECK_DEADLOCK FALSE\nCONSTANTS\n  MaxRot = %d\n  Recovery = \"%s\"\n" % (max_rot, variant) +
+                    "INVARIANT Inv_OneActive\nINVARIANT Inv_Unchanged\nINVARIANT Inv_CanStart\nINVARIANT Inv_Rows\n")
+        rc, txt, dt = tlc(d, "KeysetSteps.tla", "KeysetRun.cfg", workers=2, timeout=600, xmx="2g")
+        m = re.search(r"(\d+) states generated, (\d+) distinct states found", txt)
+        v = re.search(r"Invariant (\w+) is violated", txt)
+        if not v and "No error has been found" not in txt:
+            shutil.rmtree(d, ignore_errors=True)
+            raise Infra("TLC failed on KeysetSteps (%s):\n%s" % (variant, txt[-2000:]))
+        out[variant] = {"violated": v.group(1) if v else None, "generated": int(m.group(1)) if m else 0, "distinct": int(m.group(2)) if m else 0}
+        shutil.rmtree(d, ignore_errors=True)
+    if out["latest"]["violated"]:
+        raise Infra("KeysetSteps: the recovery of the current code violates %s in the model (to be reproduced on the real mint)" % out["latest"]["violated"])
+    if not out["oldest"]["violated"] or not out["none"]["violated"]:
+        raise Infra("KeysetSteps accepted a defective recovery variant (vacuous?): %s" % out)
+    return {"max_rotations": max_rot, "variants": out, "states_generated": sum(x["generated"] for x in out.values()),
+            "distinct_states": sum(x["distinct"] for x in out.values())}
+
+
+def rotation_calls_match(dry_runs):
+    """The storage calls of the rotation victims of the crash enumeration (dry runs on the real mint) against the model's order."""
+    res = {}
+    for r in dry_runs:
+        if r["scenario"] in ("rotate", "rotate-again"):
+            calls = [c for c in r["calls"] if c.startswith("db:")]
+            res[r["scenario"]] = {"calls": calls, "matches_model": calls == ROTATE_CALLS}
+    return res
